@@ -111,6 +111,17 @@ CLAIMS["C12"] = (
     "DESIGN.md section 5 C12",
 )
 
+CLAIMS["C19"] = (
+    "call-site classification (receiver provenance through the authenticated gate, may-dataflow for suspension in between); gate truth table; who-may-write + disjunctive path analysis of APIClient._connection",
+    "Decides statically: every public APIClient call site that reaches a sending/registering connection API takes its receiver from the "
+    "authenticated gate with no suspension in between; non-public closures may use self._connection only behind an is-not-None test (R1); "
+    "the gate returns iff a connection is installed and connected and otherwise raises an APIConnectionError, without effects (R2); "
+    "_connection is installed iff none is installed (refusal is effect-free), cleared by the stop hook given to the connection (before "
+    "user code), on every exceptional exit of a connect phase, and after disconnect() closed it unless already replaced; no other writer "
+    "(R3). With C07/C08 these are the structural conditions of the statement; multi-session histories as behaviour are not decided.",
+    "DESIGN.md section 5 C19",
+)
+
 UNDER_CONSTRUCTION = "rule set not built yet in this round (see DESIGN.md section 5 for the planned static rules)"
 
 NOT_APPLICABLE = {}
